@@ -231,6 +231,9 @@ TEMPLATES = {
     "defaulttext": ("message_SwitchMonologue ($X) {\ncase 7: 'x'\ndefault: 'y'\n}\nzzend();", "DefaultText", 0),
     "dmode": ("switch (dungeon_mode(3)) {\ncase 0:\nzzin();\nbreak;\n}\nzzend();", "Case", 0),
     "case": ("switch ($X) {\ncase 0:\nzzin();\nbreak;\n}\nzzend();", "Case", 0),
+    "casetext_key": ("message_SwitchTalk ($X) {\ncase 7: 'x'\ndefault: 'y'\n}\nzzend();", "CaseText", 0),
+    "menu2": ("switch (message_SwitchMenu(1, 2)) {\ncase menu2(5):\nzzin();\nbreak;\n}\nzzend();", "CaseMenu2", 0),
+    "casevalue": ("switch ($X) {\ncase > 3:\nzzin();\nbreak;\n}\nzzend();", "CaseValue", 1),
     "switchhdr": ("switch (ProcessSpecial(0, 1, 2)) {\ncase 1:\nzzin();\nbreak;\n}\nzzend();", "ProcessSpecial", 0),
 }
 _TPL_CACHE: dict = {}
